@@ -43,3 +43,13 @@ Theorem C18_join_ids_unique :
   NoDup (map fst (Bin.pure_step V op b2v c return_bool hidx lidx lhs rhs)).
 Proof. exact BinProofs.pure_step_ids_unique. Qed.
 Print Assumptions C18_join_ids_unique.
+
+(* The histogram_quantile operator: every output series occurs at most once in a step vector and every
+   sample ID indexes the output series list, whatever the buckets and the number type. *)
+From Verif Require RangeArith Bucket BucketProofs.
+Theorem C18_histogram_ids_unique_and_in_range :
+  forall (V : Type) (o : RangeArith.ops V) (pinf ninf : V) nout idx q vec,
+  NoDup (map fst (Bucket.hist_step V o pinf ninf nout idx q vec)) /\
+  forall e, In e (Bucket.hist_step V o pinf ninf nout idx q vec) -> (fst e < nout)%nat.
+Proof. exact BucketProofs.hist_step_ids. Qed.
+Print Assumptions C18_histogram_ids_unique_and_in_range.
